@@ -269,7 +269,7 @@ func symKey(tag string, n int) []byte {
 	return k
 }
 
-const nWellFormed = 18 + 19 + 3 + 6
+const nWellFormed = 18 + 19 + 3 + 6 + 3
 
 // wellFormedCase builds only the selected case (symbolic holes are created per case).
 func wellFormedCase(i int) cmdCase {
@@ -341,7 +341,23 @@ func wellFormedCase(i int) cmdCase {
 	case 4:
 		return cmdCase{name: "set-max", line: cat("set k 0 0 64\r\n", make([]byte, 64), "\r\n"), replies: 1, mutates: true}
 	}
-	return cmdCase{name: "set-big-key", line: cat("set ", make250(), " 0 0 1\r\nx\r\n"), replies: 1}
+	switch i {
+	case 5:
+		return cmdCase{name: "set-big-key", line: cat("set ", make250(), " 0 0 1\r\nx\r\n"), replies: 1}
+	}
+	// multi-key gets whose command line is just below / just above / far above the 4096-byte
+	// default buffer of the connection reader; every key is legal (240 bytes), the last one hits
+	n := []int{16, 17, 35}[i-6]
+	line := []byte("get")
+	for j := 0; j < n; j++ {
+		k := make250()[:240]
+		k[0] = 'A' + byte(j%26)
+		k[1] = 'A' + byte(j/26)
+		line = append(line, ' ')
+		line = append(line, k...)
+	}
+	line = append(line, " k\r\n"...)
+	return cmdCase{name: "get-multi-long-line-" + strconv.Itoa(n), line: line, replies: 1}
 }
 
 // asciiBytes: n symbolic bytes below 0x80 (multi-byte UTF-8 runes are outside the engine's
